@@ -51,6 +51,7 @@ type Frame struct {
 	loops  *loopInfo
 	entryState *State
 	predPC     map[edgeKey]*Term
+	iterByLoop map[int]*IterVal
 }
 
 type retPoint struct {
@@ -173,7 +174,7 @@ func headPos(b *ssa.BasicBlock) token.Pos {
 // ---- top-level verification of one function ----
 
 func (e *Engine) newCtx(fn *ssa.Function) *FnCtx {
-	return &FnCtx{eng: e, top: fn, fc: e.ld.byFn[fn], kindOrd: map[string]int{}, trusted: map[string]bool{}}
+	return &FnCtx{eng: e, top: fn, fc: e.ld.byFn[fn], kindOrd: map[string]int{}, trusted: map[string]bool{}, layers: map[int]*layerInfo{}, layerInst: map[[2]int]bool{}}
 }
 
 func (c *FnCtx) newFrame(fn *ssa.Function) *Frame {
@@ -384,13 +385,14 @@ func (c *FnCtx) checkFrame(fr *Frame, rp retPoint) {
 	allowed := map[string]bool{}
 	var ptrTargets []modTarget
 	for _, m := range fr.fc.Modifies {
-		mt := c.resolveModifies(fr, fr.entryState, m, termArgs(fr.params))
-		if mt.global != nil {
-			allowed["g:"+mt.global.Name()] = true
-		} else if mt.all {
-			allowed["*"] = true
-		} else {
-			ptrTargets = append(ptrTargets, mt)
+		for _, mt := range c.resolveModifiesAll(fr.entryState, fr.fn, m, termArgs(fr.params)) {
+			if mt.global != nil {
+				allowed["g:"+mt.global.Name()] = true
+			} else if mt.all {
+				allowed["*"] = true
+			} else {
+				ptrTargets = append(ptrTargets, mt)
+			}
 		}
 	}
 	if allowed["*"] {
@@ -428,41 +430,61 @@ func (c *FnCtx) checkFrame(fr *Frame, rp retPoint) {
 			// ghost heaps of abstract stdlib objects (stream positions...) are governed by posts, not frames
 			continue
 		}
-		// collect written object ids along the store chain; a non-store base different from entry heap = whole heap havoc
-		objs, whole := storeChain(cur, ent)
-		if whole {
-			ok := false
-			for _, mt := range ptrTargets {
-				if mt.heap == h && mt.obj == nil {
-					ok = true
-				}
+		// every store node on the way from the entry heap to the current heap, under the path guard of the
+		// ite branches it sits in, must target a fresh object or a permitted one (or rewrite the same value)
+		wholeOK := false
+		for _, mt := range ptrTargets {
+			if mt.heap == h && mt.obj == nil {
+				wholeOK = true
 			}
-			if !ok {
-				c.addObl(rp.st, "frame-heap", h, ts.Bool(false), rp.pos, "heap "+h+" changed wholesale; not in modifies")
-			}
+		}
+		if wholeOK {
 			continue
 		}
-		for _, o := range objs {
-			// allowed if fresh (>= entry watermark) or equals a permitted target
+		seen := map[[2]int]bool{}
+		var walk func(t *Term, guard *Term)
+		check := func(o *Term, guard *Term, same *Term) {
 			alts := []*Term{ts.Ge(o, fr.entryState.wm)}
 			for _, mt := range ptrTargets {
 				if mt.heap == h {
-					if mt.obj == nil {
-						alts = append(alts, ts.Bool(true))
-					} else {
-						alts = append(alts, ts.Eq(o, mt.obj))
-					}
+					alts = append(alts, ts.Eq(o, mt.obj))
 				}
 			}
-			// or value unchanged
-			alts = append(alts, ts.Eq(ts.Select(cur, o), ts.Select(ent, o)))
-			c.addObl(rp.st, "frame-heap", h, ts.Or(alts...), rp.pos, "write to "+h+" outside modifies and not fresh")
+			if same != nil {
+				alts = append(alts, same)
+			}
+			c.addObl(rp.st, "frame-heap", h, ts.Implies(guard, ts.Or(alts...)), rp.pos, "write to "+h+" outside modifies and not fresh")
 		}
+		walk = func(t *Term, guard *Term) {
+			if t == ent || guard.IsFalse() || seen[[2]int{t.id, guard.id}] {
+				return
+			}
+			seen[[2]int{t.id, guard.id}] = true
+			switch {
+			case t.kind == kApp && t.op == "store":
+				c.frameFacts(t.args[0], t.args[1])
+				check(t.args[1], guard, ts.Eq(t.args[2], ts.Select(t.args[0], t.args[1])))
+				walk(t.args[0], guard)
+			case t.kind == kApp && t.op == "ite":
+				walk(t.args[1], ts.And(guard, t.args[0]))
+				walk(t.args[2], ts.And(guard, ts.Not(t.args[0])))
+			default:
+				if li, ok := c.layers[t.id]; ok {
+					for _, e := range li.except {
+						check(e, guard, nil)
+					}
+					walk(li.old, guard)
+					return
+				}
+				c.addObl(rp.st, "frame-heap", h, ts.Not(guard), rp.pos, "heap "+h+" changed wholesale; not in modifies")
+			}
+		}
+		walk(cur, ts.Bool(true))
 	}
 }
 
 // storeChain walks store/ite structure down to base; returns object ids written.
-func storeChain(cur, base *Term) (objs []*Term, whole bool) {
+func (c *FnCtx) storeChain(cur, base *Term) (objs []*Term, whole bool) {
 	seen := map[int]bool{}
 	var walk func(t *Term)
 	walk = func(t *Term) {
@@ -478,6 +500,12 @@ func storeChain(cur, base *Term) (objs []*Term, whole bool) {
 		if t.kind == kApp && t.op == "ite" {
 			walk(t.args[1])
 			walk(t.args[2])
+			return
+		}
+		if li, ok := c.layers[t.id]; ok {
+			// a layered heap agrees with its older heap below a watermark >= the entry watermark, except at li.except
+			objs = append(objs, li.except...)
+			walk(li.old)
 			return
 		}
 		whole = true
@@ -620,23 +648,47 @@ func (c *FnCtx) enterLoop(fr *Frame, h *ssa.BasicBlock, ord int, st *State) *Sta
 		srt := c.heapSort(hname)
 		objs := wl.heaps[hname]
 		precise := !wl.whole[hname]
+		// objects written: loop-invariant ids (havocked individually), ids allocated inside the loop
+		// (objects below the watermark at loop entry keep their content), anything else: whole heap.
+		var inv []*Term
+		seenO := map[int]bool{}
+		layered := false
 		for _, o := range objs {
-			if o.id > maxID {
+			if seenO[o.id] {
+				continue
+			}
+			seenO[o.id] = true
+			switch {
+			case o.id <= maxID:
+				inv = append(inv, o)
+			case wl.alloc[o.id]:
+				layered = true
+			default:
 				precise = false
 			}
 		}
-		if precise {
-			_, es := srt.ArrParts()
-			seen := map[int]bool{}
-			for _, o := range objs {
-				if seen[o.id] {
-					continue
+		_, es := srt.ArrParts()
+		switch {
+		case !precise:
+			c.setHeapWhole(out, hname, ts.Fresh(fmt.Sprintf("lp%d!H!%s", ord, hname), srt))
+		case layered:
+			old := c.heap(st, hname, srt)
+			nh := ts.Fresh(fmt.Sprintf("lp%d!L!%s", ord, hname), srt)
+			c.layers[nh.id] = &layerInfo{wm: st.wm, old: old, except: inv}
+			out.heaps[hname] = nh
+			if c.writeLog != nil {
+				// propagate to an enclosing dry run: same classification there
+				for _, o := range objs {
+					c.writeLog.heaps[hname] = append(c.writeLog.heaps[hname], o)
 				}
-				seen[o.id] = true
+				for id := range wl.alloc {
+					c.writeLog.alloc[id] = true
+				}
+			}
+		default:
+			for _, o := range inv {
 				c.setHeapAt(out, hname, srt, o, ts.Fresh(fmt.Sprintf("lp%d!%s", ord, hname), es))
 			}
-		} else {
-			c.setHeapWhole(out, hname, ts.Fresh(fmt.Sprintf("lp%d!H!%s", ord, hname), srt))
 		}
 	}
 	if wl.wm {
@@ -663,9 +715,28 @@ func (c *FnCtx) backEdge(fr *Frame, h *ssa.BasicBlock, st *State, from *ssa.Basi
 
 // loopInvs evaluates the loop's invariants in st and asserts (mode inv-init / inv-step) or assumes them.
 func (c *FnCtx) loopInvs(fr *Frame, h *ssa.BasicBlock, ord int, lc *LoopContract, st *State, mode string) {
+	// automatic (checked like any other) invariant of compiler-generated slice range loops: rangeindex >= -1
+	if h.Comment == "rangeindex.loop" {
+		ts := c.eng.ts
+		for _, in := range h.Instrs {
+			if sto, ok := in.(*ssa.Store); ok {
+				if a, ok := sto.Addr.(*ssa.Alloc); ok && a.Comment == "rangeindex" {
+					if cell, ok := fr.cells[a]; ok {
+						g := ts.Ge(c.getCell(st, cell), ts.Int(-1))
+						if mode == "assume" {
+							c.addFact(st, g)
+						} else {
+							c.addObl(st, mode, fmt.Sprintf("loop%d#auto-rangeindex", ord), g, headPos(h), "rangeindex >= -1")
+						}
+					}
+				}
+			}
+		}
+	}
 	if lc == nil {
 		return
 	}
+	c.curFrame = fr
 	for i, inv := range lc.Invs {
 		gf := c.eng.ld.GhostFunc(inv.Fn)
 		if gf == nil {
@@ -771,7 +842,7 @@ func (fr *Frame) val(v ssa.Value) SymVal {
 	case *ssa.Builtin:
 		return &FuncVal{}
 	case *ssa.FreeVar:
-		unsupported("free variable %s (closure) in %s", x.Name(), fr.fn)
+		unsupported("free variable %s (closure) in %s not bound", x.Name(), fr.fn)
 	}
 	unsupported("use of undefined register %s (%T) in %s", v.Name(), v, fr.fn)
 	return nil
